@@ -81,6 +81,8 @@ class ExecBase:
         self.assumptions = set()
         self.local_classes = {}
         self.used_contracts = set()
+        self.pending_loops = {}
+        self.top_qual = None
 
     # ------------------------------------------------------------ solver helpers
     def check_sat(self, terms, ms=None):
